@@ -308,3 +308,10 @@ Theorem C07_after_cancel_before_eval_refuted :
   y_session true h_dead = [OOk; OZero; OZero; OOk] /\ g_session h_dead = [OOk; OOk; OOk; OOk].
 Proof. exact after_cancel_before_eval_refuted. Qed.
 Print Assumptions C07_after_cancel_before_eval_refuted.
+
+(** var o host.Op = neg (neg a declared script function): the *node is not wrapped *)
+Theorem C07_functype_named_refuted :
+  y_functype_wraps FRet = true /\ y_functype_wraps FConv = true
+  /\ y_functype_wraps FVar = false /\ y_functype_wraps FParam = false /\ g_functype_wraps FVar = true.
+Proof. exact functype_named_refuted. Qed.
+Print Assumptions C07_functype_named_refuted.
